@@ -367,7 +367,7 @@ func (r *rpRun) checkProbes(res *Result, faults bool) {
 }
 
 func rpDetail(b *rpBehaviour, p rpProbe, ks []int, w *recWriter, err error) any {
-	return map[string]any{"kind": b.Kind, "n": b.N, "auto": b.Auto, "ttl": b.TTL, "gci": b.GCI, "ops": b.Ops,
+	return map[string]any{"driver": "replay", "behaviour": b, "kind": b.Kind, "n": b.N, "auto": b.Auto, "ttl": b.TTL, "gci": b.GCI, "ops": b.Ops,
 		"probe": p, "sent_puts": ks, "writer_log": w.log, "err": fmt.Sprint(err), "spec_shape": b.Shape}
 }
 
@@ -433,7 +433,7 @@ func cmdReplay(args []string) {
 		}
 		mode := b.Kind + "/" + map[bool]string{true: "auto", false: "manual"}[b.Auto]
 		for _, p := range r.problems {
-			res.violate(p, "put:"+mode+":"+strings.SplitN(p, ":", 2)[1][:min(24, len(strings.SplitN(p, ":", 2)[1]))], map[string]any{"behaviour": b})
+			res.violate(p, "put:"+mode+":"+strings.SplitN(p, ":", 2)[1][:min(24, len(strings.SplitN(p, ":", 2)[1]))], map[string]any{"driver": "replay", "behaviour": b})
 		}
 		r.checkProbes(res, *faults)
 		r.checkShape(res)
@@ -501,12 +501,12 @@ func cmdRetain(args []string) {
 			if len(leaked) > 0 {
 				sh, _ := sse.VerifReplayerShape(r.rep)
 				res.violate(fmt.Sprintf("%s: puts %v were evicted/collected but are still reachable after %d GC rounds", mode, leaked, rounds),
-					"retain:leak:"+mode, map[string]any{"behaviour": b, "leaked": leaked, "impl_shape": sh})
+					"retain:leak:"+mode, map[string]any{"driver": "retain", "behaviour": b, "leaked": leaked, "impl_shape": sh})
 			}
 			// retained ones must still be there: finalizer not run and replayable
 			for _, k := range b.Retained {
 				if r.finals[k-1].Load() {
-					res.violate(fmt.Sprintf("%s: put %d should be retained but was finalised", mode, k), "retain:lost:"+mode, map[string]any{"behaviour": b})
+					res.violate(fmt.Sprintf("%s: put %d should be retained but was finalised", mode, k), "retain:lost:"+mode, map[string]any{"driver": "retain", "behaviour": b})
 				}
 			}
 			// keep the replayer alive until here
